@@ -1,6 +1,38 @@
--- shard 5 of the closeness / tick-gap sweep (C06 (c), (e)): |tick| in [163840, 196608)
+-- shard 5 of the closeness / tick-gap sweep (C06 (c), (e)): |tick| in [163840, 196608), 16 blocks of 2^11
 import Proofs.Lemmas.ClosePred
 namespace Demeter.TickClose
 set_option maxRecDepth 100000 in
-theorem close_shard_05 : chkN closeSweepPred 163840 shardBits = true := by decide +kernel
+theorem close_blk_163840 : chkN closeSweepPred 163840 11 = true := by decide +kernel
+set_option maxRecDepth 100000 in
+theorem close_blk_165888 : chkN closeSweepPred 165888 11 = true := by decide +kernel
+set_option maxRecDepth 100000 in
+theorem close_blk_167936 : chkN closeSweepPred 167936 11 = true := by decide +kernel
+set_option maxRecDepth 100000 in
+theorem close_blk_169984 : chkN closeSweepPred 169984 11 = true := by decide +kernel
+set_option maxRecDepth 100000 in
+theorem close_blk_172032 : chkN closeSweepPred 172032 11 = true := by decide +kernel
+set_option maxRecDepth 100000 in
+theorem close_blk_174080 : chkN closeSweepPred 174080 11 = true := by decide +kernel
+set_option maxRecDepth 100000 in
+theorem close_blk_176128 : chkN closeSweepPred 176128 11 = true := by decide +kernel
+set_option maxRecDepth 100000 in
+theorem close_blk_178176 : chkN closeSweepPred 178176 11 = true := by decide +kernel
+set_option maxRecDepth 100000 in
+theorem close_blk_180224 : chkN closeSweepPred 180224 11 = true := by decide +kernel
+set_option maxRecDepth 100000 in
+theorem close_blk_182272 : chkN closeSweepPred 182272 11 = true := by decide +kernel
+set_option maxRecDepth 100000 in
+theorem close_blk_184320 : chkN closeSweepPred 184320 11 = true := by decide +kernel
+set_option maxRecDepth 100000 in
+theorem close_blk_186368 : chkN closeSweepPred 186368 11 = true := by decide +kernel
+set_option maxRecDepth 100000 in
+theorem close_blk_188416 : chkN closeSweepPred 188416 11 = true := by decide +kernel
+set_option maxRecDepth 100000 in
+theorem close_blk_190464 : chkN closeSweepPred 190464 11 = true := by decide +kernel
+set_option maxRecDepth 100000 in
+theorem close_blk_192512 : chkN closeSweepPred 192512 11 = true := by decide +kernel
+set_option maxRecDepth 100000 in
+theorem close_blk_194560 : chkN closeSweepPred 194560 11 = true := by decide +kernel
+theorem close_shard_05 : chkN closeSweepPred 163840 shardBits = true :=
+  (chkN_join _ 163840 14 (chkN_join _ 163840 13 (chkN_join _ 163840 12 (chkN_join _ 163840 11 close_blk_163840 close_blk_165888) (chkN_join _ 167936 11 close_blk_167936 close_blk_169984)) (chkN_join _ 172032 12 (chkN_join _ 172032 11 close_blk_172032 close_blk_174080) (chkN_join _ 176128 11 close_blk_176128 close_blk_178176))) (chkN_join _ 180224 13 (chkN_join _ 180224 12 (chkN_join _ 180224 11 close_blk_180224 close_blk_182272) (chkN_join _ 184320 11 close_blk_184320 close_blk_186368)) (chkN_join _ 188416 12 (chkN_join _ 188416 11 close_blk_188416 close_blk_190464) (chkN_join _ 192512 11 close_blk_192512 close_blk_194560))))
 end Demeter.TickClose
